@@ -356,3 +356,71 @@ Proof.
       rewrite (nth_indep _ d (nth 0 l d)) by (rewrite map_length; lia).
       apply (map_nth (fun i => nth i l d)).
 Qed.
+
+(* ------------------------------------------------------------------------------------------------ *)
+(* heredity: a matrix with the consecutive-ones property keeps it when rows are dropped / repeated and when
+   only the columns listed in cols (distinct, in any order) are kept.  Contrapositive: a matrix that contains a
+   refuted submatrix is refuted — used by the correspondence to obtain proved negative verdicts at sizes where
+   the reference enumeration is not run. *)
+Lemma Interval_filter {T} (P : T -> Prop) (c : T -> bool) l : Interval P l -> Interval P (filter c l).
+Proof.
+  intros (l1 & l2 & l3 & -> & H1 & H2 & H3).
+  exists (filter c l1), (filter c l2), (filter c l3). rewrite !filter_app.
+  repeat split; auto; apply Forall_forall; intros x Hx; apply filter_In in Hx; destruct Hx as [Hx _];
+    [rewrite Forall_forall in H1|rewrite Forall_forall in H2|rewrite Forall_forall in H3]; auto.
+Qed.
+
+Theorem c1p_hereditary rows nc rows' cols :
+  C1P rows nc -> incl rows' rows -> NoDup cols -> Forall (fun j => j < nc) cols ->
+  C1P (map (select_cols cols) rows') (length cols).
+Proof.
+  intros (perm & HP & Hrows) Hincl Hnd Hrange.
+  set (q := filter (fun j => memn j cols) perm).
+  assert (Hq : Permutation cols q).
+  { apply NoDup_Permutation; [exact Hnd| |].
+    - apply NoDup_filter. eapply Permutation_NoDup; [exact HP|apply seq_NoDup].
+    - intros j. unfold q. rewrite filter_In, memn_iff. split; [|tauto]. intros Hj. split; [|exact Hj].
+      eapply Permutation_in; [exact HP|]. apply in_seq. rewrite Forall_forall in Hrange.
+      specialize (Hrange j Hj). lia. }
+  destruct (Permutation_index 0 cols q Hq) as (p & Hp & Heq).
+  exists p. split; [exact Hp|]. rewrite Forall_map. apply Forall_forall. intros row Hrow.
+  rewrite Forall_forall in Hrows. specialize (Hrows row (Hincl row Hrow)).
+  unfold row_contig in *. 
+  assert (E : permute_row p (select_cols cols row) = map (pick row) q).
+  { rewrite Heq, map_map. unfold permute_row, select_cols. apply map_ext_in. intros i Hi.
+    apply Permutation_sym in Hp. apply (Permutation_in _ Hp) in Hi. apply in_seq in Hi.
+    unfold pick at 1. rewrite (nth_indep _ false (pick row 0)) by (rewrite map_length; lia).
+    apply (map_nth (pick row)). }
+  rewrite E. unfold permute_row in Hrows.
+  apply (contig01_map (pick row) (fun j => pick row j = true) (fun j => iff_refl _)).
+  apply Interval_filter.
+  apply (contig01_map (pick row) (fun j => pick row j = true) (fun j => iff_refl _)). exact Hrows.
+Qed.
+
+Corollary c1p_refuted_by_submatrix rows nc rows' cols :
+  incl rows' rows -> NoDup cols -> Forall (fun j => j < nc) cols ->
+  c1p_decide (map (select_cols cols) rows') (length cols) = false -> c1p_decide rows nc = false.
+Proof.
+  intros Hincl Hnd Hr Hf. destruct (c1p_decide rows nc) eqn:E; [|reflexivity].
+  apply c1p_decide_correct in E. apply (c1p_hereditary rows nc rows' cols) in E; auto.
+  apply c1p_decide_correct in E. congruence.
+Qed.
+
+Lemma nodupb_NoDup l : nodupb l = true -> NoDup l.
+Proof.
+  induction l as [|x t IH]; simpl; [constructor|]. rewrite andb_true_iff, negb_true_iff. intros [H1 H2].
+  constructor; [|now apply IH]. intros Hin. apply memn_iff in Hin. congruence.
+Qed.
+
+Theorem c1p_core_refuted_sound rows nc ridx cols :
+  c1p_core_refuted rows nc ridx cols = true -> c1p_decide rows nc = false.
+Proof.
+  unfold c1p_core_refuted. rewrite !andb_true_iff, negb_true_iff, !forallb_forall.
+  intros [[[Hnd Hc] Hr] Hf].
+  apply (c1p_refuted_by_submatrix rows nc (map (fun i => nth i rows []) ridx) cols).
+  - intros row Hrow. apply in_map_iff in Hrow. destruct Hrow as (i & <- & Hi).
+    apply nth_In. apply Nat.ltb_lt. now apply Hr.
+  - now apply nodupb_NoDup.
+  - apply Forall_forall. intros j Hj. apply Nat.ltb_lt. now apply Hc.
+  - exact Hf.
+Qed.
